@@ -179,7 +179,11 @@ func runC18G(c C18GCase, _ bool) *fOutcome {
 	}
 	for i := range vAfter {
 		if vAfter[i] != want[i] {
-			out.Failure = ffail("C18", "global-setting-mixture", i, "the reload was %s; probe answers %q, want %q (old %q, new %q)\nold:\n%s\nnew:\n%s", what, vAfter[i], want[i], vOld[i], vNew[i], oldText, newText)
+			tag := "C18"
+			if strings.HasPrefix(vAfter[i], "publish ") {
+				tag = "C18,C15" // a publish judged under a policy that is not the one in force
+			}
+			out.Failure = ffail(tag, "global-setting-mixture", i, "the reload was %s; probe answers %q, want %q (old %q, new %q)\nold:\n%s\nnew:\n%s", what, vAfter[i], want[i], vOld[i], vNew[i], oldText, newText)
 			return out
 		}
 	}
@@ -188,4 +192,18 @@ func runC18G(c C18GCase, _ bool) *fOutcome {
 
 func TestProp_C18_GlobalReload(t *testing.T) {
 	frontProp(t, "C18", "TestProp_C18_GlobalReload", genC18GCase(), runC18G)
+}
+
+// TestProp_C15_PolicyReload: the same worlds for C15's share (is a publish judged by the global
+// policy in force after a reload?); clauses that belong to C18 alone are not this test's.
+func TestProp_C15_PolicyReload(t *testing.T) {
+	frontProp(t, "C15", "TestProp_C15_PolicyReload", genC18GCase(), func(c C18GCase, tol bool) *fOutcome {
+		out := runC18G(c, tol)
+		if f := out.Failure; f != nil && f.Prop != "HARNESS" && !strings.Contains(f.Prop, "C15") {
+			out.Failure = nil
+			out.Labels["foreign-clause"] = true
+		}
+		out.NonTriv = out.NonTriv && (c.Old.NoPull != c.New.NoPull || c.Old.DirectOff != c.New.DirectOff)
+		return out
+	})
 }
